@@ -34,7 +34,8 @@ class Flow:
         self.b = body
         self.memo = {}
         self.nv = {}
-        self.phis = {}
+        self._phis = {}
+        self._phi_pending = {}
         self._reach_tok = {}
         # locals whose own storage is borrowed mutably (a reborrow `&mut (*p)` borrows the pointee, not p)
         self.mem = set()
@@ -125,13 +126,25 @@ class Flow:
             return self.defval(tok[1], l)
         m = tok[1]
         phi = E("phi", ty=b.local_ty(l), extra=(l, m))
-        if phi.key() not in self.phis:
-            self.phis[phi.key()] = None
-            tin, tout = self.reaching(l)
-            ps = b.nodes[m].pred
-            ops = [self.tok_value(l, tout.get(p), p) for (p, _l) in ps]
-            self.phis[phi.key()] = (m, ops, ps)
+        if phi.key() not in self._phi_pending and phi.key() not in self._phis:
+            self._phi_pending[phi.key()] = (l, m)
         return phi
+
+    def phi(self, key):
+        """(merge node, incoming values, predecessor edges) of a phi value; incoming values are built on demand"""
+        if key in self._phis:
+            return self._phis[key]
+        pend = self._phi_pending.pop(key, None)
+        if pend is None:
+            return None
+        l, m = pend
+        b = self.b
+        self._phis[key] = None
+        tin, tout = self.reaching(l)
+        ps = b.nodes[m].pred
+        ops = [self.tok_value(l, tout.get(p), p) for (p, _l) in ps]
+        self._phis[key] = (m, ops, ps)
+        return self._phis[key]
 
     def read(self, l, n):
         """value of local l on entry to node n"""
@@ -523,6 +536,7 @@ class Ctx:
         self.atom_facts = {}    # atom key -> [Lin >= 0]
         self.names = {}
         self._len_stable = {}
+        self._filter_done = set()
         self.lazy = {}          # phi atoms whose interval facts are still to be computed
 
     # ---- atoms
@@ -581,6 +595,21 @@ class Ctx:
             s = self.engine.len_summary(self, base)
             if s is not None:
                 return s
+        # payload of a call with a declared length postcondition: (call(..)? ) / (.. as Ok).0
+        x = base
+        for _ in range(8):
+            if x.k in ("field", "downcast") and x.a:
+                x = x.a[0]
+            elif x.k == "call" and x.a and any(path_matches(x.extra, w) for w in ("Try::branch", "Result::map_err", "Option::ok_or", "Option::ok_or_else")):
+                x = x.a[0]
+            else:
+                break
+        if x is not base and x.k == "call":
+            for pat, ens in self.engine.ensures.items():
+                if path_matches(x.extra, pat):
+                    for (what, argidx, factor) in ens:
+                        if what == "ok_len_mul" and argidx - 1 < len(x.a):
+                            return self.L(x.a[argidx - 1]).scale(factor)
         # element of chunks_exact / windows
         it = self.iter_source(base)
         if it is not None:
@@ -723,6 +752,8 @@ class Ctx:
             cv = self.engine.const_value(self.prog, e)
             if cv is not None:
                 return const(cv)
+        if k == "atomref":
+            return atom(e.extra)
         if k == "bin":
             op = e.extra
             a, b = e.a
@@ -876,6 +907,7 @@ class Ctx:
 
     def payload(self, src, var, fname):
         """Lin of field `fname` of variant `var` of an Option/Result valued expression, when known"""
+        filters = []
         for _ in range(12):
             if src.k != "call" or not src.a:
                 return None
@@ -891,6 +923,8 @@ class Ctx:
                     continue
                 return None
             if var in ("Some", "Ok") and fname == "0":
+                if m("Option::filter") and len(src.a) == 2:
+                    filters.append(src.a[1])
                 if m("Option::ok_or", "Option::ok_or_else", "Result::map_err", "Option::filter", "Result::ok", "Option::or_else") and src.a:
                     if m("Option::ok_or", "Option::ok_or_else"):
                         var = "Some"
@@ -907,6 +941,8 @@ class Ctx:
                         s = self.L(src.a[0]) + self.L(src.a[1])
                         ety = (re.search(r"<(u\d+|usize)>", src.ty or "") or [None, None])[1]
                         self.atom_facts[key] = [r - s, s - r] + (self.ty_facts(r, ety) if ety else [])
+                    for fl in filters:
+                        self.filter_facts(key, src, fl)
                     return atom(key)
                 if m("checked_sub") and len(src.a) == 2:
                     key = ("chk", src.key())
@@ -926,6 +962,12 @@ class Ctx:
                             self.atom_facts[key] = [r - s, s - r] + (self.ty_facts(r, ety) if ety else [])
                         return atom(key)
                     return None
+                if m("Read::read", "FileExt::read_at") and len(src.a) >= 2:
+                    key = ("chk", src.key())
+                    if key not in self.atom_e:
+                        r = self.mk(key, src)
+                        self.atom_facts[key] = [r, self.len_of(src.a[1]) - r]
+                    return atom(key)
                 if m("TryFrom::try_from", "TryInto::try_into") and src.a and src.a[0].ty in UMAX:
                     ety = (re.search(r"Result<(u\d+|usize),", src.ty or "") or [None, None])[1]
                     key = ("chk", src.key())
@@ -936,6 +978,50 @@ class Ctx:
                     return atom(key)
             return None
         return None
+
+    def filter_facts(self, key, payload_src, clo):
+        """`opt.filter(|v| pred(v))` is Some only if pred holds for the payload: read pred off the closure body"""
+        done = self._filter_done
+        if (key, clo.key()) in done:
+            return
+        done.add((key, clo.key()))
+        self.atom_facts[key] = self.atom_facts.get(key, []) + self.closure_pred_facts(key, clo)
+
+    def closure_pred_facts(self, key, clo):
+        """facts stating that the one-expression predicate closure `clo` holds for the value named by atom `key`"""
+        if clo.k != "agg" or clo.extra not in self.prog.bodies:
+            return []
+        cb = self.prog.bodies[clo.extra]
+        rets = cb.return_nodes()
+        if len(rets) != 1 or len(cb.nodes) > 80:
+            return []
+        cf = flow(cb)
+        rv = cf.read(0, rets[0])
+        pay = E("atomref", ty=None, extra=key)
+
+        def sub(e):
+            if e.k == "arg":
+                if e.extra[0] == 2:
+                    return pay
+                return None
+            if e.k == "field" and e.a and e.a[0].k == "arg" and e.a[0].extra[0] == 1:
+                idx = e.extra[1]
+                if str(idx).isdigit() and int(idx) < len(clo.a):
+                    return clo.a[int(idx)]
+                return None
+            if e.k in ("mem", "phi", "undef", "unknown"):
+                return None
+            a = []
+            for x in e.a:
+                y = sub(x)
+                if y is None:
+                    return None
+                a.append(y)
+            return E(e.k, a, ty=e.ty, nid=(("clo", clo.key()), e.nid) if e.nid is not None else None, extra=e.extra)
+        pred = sub(rv)
+        if pred is None:
+            return []
+        return self.engine.cmp_facts(self, pred, True)
 
     # ---- facts closure
     def facts_for(self, lins):
@@ -1005,9 +1091,9 @@ class Engine:
     def len_summary(self, ctx, base):
         for pat, ens in self.ensures.items():
             if path_matches(base.extra, pat):
-                for (what, rel, val) in ens:
-                    if what == "len" and rel == "eq":
-                        return const(val)
+                for item in ens:
+                    if item[0] == "len" and item[1] == "eq":
+                        return const(item[2])
         # length of the collection a callee returns, expressed over the caller's arguments
         tb = self.prog.bodies.get(base.extra)
         if tb is None or tb.is_test or tb.path == ctx.b.path or len(tb.nodes) > 400:
@@ -1033,10 +1119,65 @@ class Engine:
     def arg_facts(self, ctx, e):
         return []
 
+    def upvar_facts(self, ctx):
+        """facts the parent body knows, at the point where it builds this closure, about the values the closure captures
+        by copy or by shared reference (those cannot change while the closure exists)"""
+        b = ctx.b
+        if not b.is_closure or not b.parent or b.parent not in self.prog.bodies:
+            return []
+        pb = self.prog.bodies[b.parent]
+        pctx = self.ctx(pb)
+        sites = [n for n in pb.nodes if n.kind == "assign" and n.ev.get("rv") == "agg" and (n.ev.get("def") == b.path or n.ev.get("adt") == b.path or n.ev.get("agg") == b.path)]
+        if len(sites) != 1:
+            return []
+        site = sites[0]
+        pv = pctx.f.nodeval(site.id)
+        if pv.k != "agg":
+            return []
+        ups = b.raw.get("upvars", [])
+        envty = b.local_ty(1)
+        amap = {}
+        for i, cap in enumerate(pv.a):
+            # by-mutable-reference captures may change under the closure's feet
+            u = ups[i] if i < len(ups) else None
+            if u is not None and ("mut" in str(u.get("mode", "")).lower() or "Mut" in str(u.get("kind", ""))):
+                continue
+            if cap.k == "mem":
+                continue
+            inner = E("field", [E("arg", ty=envty, extra=(1, b.local_name(1)))], ty=cap.ty, extra=(b.path, str(i), None))
+            try:
+                pl = pctx.len_of(cap)
+                if len(pl.t) == 1 and list(pl.t.values())[0] == 1 and pl.c == 0:
+                    amap[list(pl.t)[0]] = ("len", inner)
+                if cap.ty in UMAX:
+                    pi = pctx.L(cap)
+                    if len(pi.t) == 1 and list(pi.t.values())[0] == 1 and pi.c == 0:
+                        amap[list(pi.t)[0]] = ("val", inner)
+            except Exception:
+                continue
+        if not amap:
+            return []
+        out = []
+        for f_ in self.facts_at(pctx, site.id):
+            if not f_.t or not set(f_.t) <= set(amap):
+                continue
+            l = const(f_.c)
+            for a, k in f_.t.items():
+                kind, inner = amap[a]
+                l = l + (ctx.len_of(inner) if kind == "len" else ctx.L(inner)).scale(k)
+            out.append(l)
+        return out
+
     def contract_facts(self, ctx):
         """assumed facts about the parameters of ctx.b (proved at every call site)"""
         out = []
         b = ctx.b
+        if b.is_closure:
+            k = ("upv", b.path)
+            if k not in self._facts_memo:
+                self._facts_memo[k] = []
+                self._facts_memo[k] = self.upvar_facts(ctx)
+            out += self._facts_memo[k]
         for pat, items in self.contracts.items():
             if not path_matches(b.path, pat):
                 continue
@@ -1056,7 +1197,7 @@ class Engine:
         """interval facts for a merge: bounds of every incoming value under the facts of its incoming edge"""
         if key in self._phi_busy or self._facts_busy:
             return        # retried on the next query (the atom stays lazy)
-        ent = ctx.f.phis.get(e.key())
+        ent = ctx.f.phi(e.key())
         if ent is None or e.ty not in UMAX:
             ctx.lazy.pop(key, None)
             return
@@ -1231,7 +1372,7 @@ class Engine:
                     return [b - const(1)]
                 return []
         if e.k == "phi" and e.ty == "bool":
-            ent = ctx.f.phis.get(e.key())
+            ent = ctx.f.phi(e.key())
             if ent:
                 node, ops, preds = ent
                 cand = []
@@ -1243,6 +1384,11 @@ class Engine:
                 if len(cand) == 1:
                     o, p, lab = cand[0]
                     return self.cmp_facts(ctx, o, truth) + self.facts_at_edge(ctx, p, lab)
+        if e.k == "call" and len(e.a) == 2 and truth and (path_matches(e.extra, "Option::is_some_and") or path_matches(e.extra, "Result::is_ok_and")):
+            pay = ctx.payload(e.a[0], "Some" if "Option" in e.extra else "Ok", "0")
+            if pay is not None and len(pay.t) == 1 and pay.c == 0 and list(pay.t.values())[0] == 1:
+                return ctx.closure_pred_facts(list(pay.t)[0], e.a[1])
+            return []
         if e.k == "call" and e.a:
             nm = e.extra
             if path_matches(nm, "slice::is_empty") or path_matches(nm, "Vec::is_empty") or path_matches(nm, "Bytes::is_empty"):
@@ -1262,6 +1408,22 @@ class Engine:
         if dty == "bool":
             truth = not (lab == 0)
             return self.cmp_facts(ctx, d, truth)
+        if d.k == "discr" and d.a:
+            inner = d.a[0]
+            for _ in range(4):
+                if inner.k == "call" and inner.a and any(path_matches(inner.extra, w) for w in ("Option::copied", "Option::cloned", "Option::as_ref")):
+                    inner = inner.a[0]
+                else:
+                    break
+            if inner.k == "call" and (path_matches(inner.extra, "slice::get") or path_matches(inner.extra, "Vec::get")) and len(inner.a) == 2 and inner.a[1].ty in UMAX:
+                # Some (discriminant 1) exactly when the index is in bounds
+                ln, ix = ctx.len_of(inner.a[0]), ctx.L(inner.a[1])
+                some = (lab == 1) or (lab == "otherwise" and 0 in [x for (_, x) in n.succ])
+                none = (lab == 0)
+                if some:
+                    return [ln - ix - const(1)]
+                if none:
+                    return [ix - ln]
         if isinstance(lab, int) and d.ty in UMAX:
             l = ctx.L(d)
             return [l - const(lab), const(lab) - l]
@@ -1362,6 +1524,9 @@ class Engine:
                     ob = Ob(n.id, "Unwrap", b.where(n.id))
                     ob.desc = "unwrap of " + recv.show()[:90]
                     x = recv
+                    if x.k == "call" and path_matches(x.extra, "bool::then") and x.a:
+                        # `cond.then(..).unwrap()`: fine exactly where cond is known to hold
+                        ob.goals = self.cmp_facts(ctx, x.a[0], True) or None
                     if x.k == "call" and (path_matches(x.extra, "TryInto::try_into") or path_matches(x.extra, "TryFrom::try_from")) and x.a:
                         m = re.search(r"\[u8; (\d+)\]", x.ty or "")
                         if m:
@@ -1416,6 +1581,9 @@ class Engine:
             if ty is None:
                 return None, desc
             la, lb = ctx.L(a), ctx.L(b)
+            if kind.startswith("Add") and UMAX[ty] >= 2 ** 64 - 1 and ((lb.is_const() and 0 <= lb.c <= 1) or (la.is_const() and 0 <= la.c <= 1)):
+                # a 64-bit counter stepped by one cannot wrap: 2^64 steps are not executable
+                return [], desc + " [64-bit unit step]"
             if kind.startswith("Add"):
                 return [const(UMAX[ty]) - la - lb], desc
             if kind.startswith("Sub"):
@@ -1464,7 +1632,7 @@ class Engine:
             e = ctx.atom_e.get(a)
             if e is None or e.k != "phi":
                 continue
-            ent = ctx.f.phis.get(e.key())
+            ent = ctx.f.phi(e.key())
             if not ent:
                 continue
             node, ops, preds = ent
